@@ -232,6 +232,11 @@ def counts(rep, repo):
 
 
 def activity_evaluated(rep, repo, mod):
+    from kvstatic.core import cached_rules
+    return cached_rules(rep, repo, 'c13.activity', ['wave_sim'], lambda r: _activity_evaluated(r, repo, mod))
+
+
+def _activity_evaluated(rep, repo, mod):
     """C13.count / C13.accumulate decided together by evaluation (Engine M; integers only): the statements of _wave_eval behind its event loop are evaluated for every
     waveform length 0..64 with and without a leading TMIN entry, the value they return is handed to the accumulation statements of level_eval_cpu and wave_eval_gpu, and
     what reaches abuf must be rises x (column 7) + falls x (column 8) of the op, at row column 6, exactly when that row is >= 0. Returns False when the code is outside the subset."""
